@@ -108,6 +108,12 @@ N("C06", "return-loop-var-after", "window_rejection.py", "    logger.warning(msg
 
 # ----------------------------------------------------------------------------- C07
 B("C07", "saf-swap-columns", "data_wrangler.py", "        data[idx, 1] = float(channels[n_ch])\n        data[idx, 2] = float(channels[e_ch])", "        data[idx, 1] = float(channels[e_ch])\n        data[idx, 2] = float(channels[n_ch])")
+B("C07", "arrange-duplicate-accepted", "data_wrangler.py", '        if trace.meta.channel.endswith("E") and not found_ew:', '        if trace.meta.channel.endswith("E"):',
+  "a second E trace silently replaces the first")
+B("C07", "arrange-band-letter", "data_wrangler.py", '        elif trace.meta.channel.endswith("N") and not found_ns:', '        elif trace.meta.channel.startswith("N") and not found_ns:')
+N("C07", "arrange-last-letter-index", "data_wrangler.py", '        if trace.meta.channel.endswith("E") and not found_ew:', '        if trace.meta.channel[-1] == "E" and not found_ew:')
+N("C07", "arrange-nested-ifs", "data_wrangler.py", '        if trace.meta.channel.endswith("E") and not found_ew:\n            ew = TimeSeries.from_trace(trace)\n            found_ew = True\n        elif',
+  '        is_east = trace.meta.channel.endswith("E")\n        if is_east and not found_ew:\n            found_ew = True\n            ew = TimeSeries.from_trace(trace)\n        elif')
 B("C07", "arrange-return-order", "data_wrangler.py", "    return ns, ew, vt\n\n\ndef _check_npts", "    return ew, ns, vt\n\n\ndef _check_npts")
 B("C07", "drop-gain", "data_wrangler.py", "    data /= gain\n    data /= conversion", "    data /= conversion")
 B("C07", "drop-check-npts-peer", "data_wrangler.py", "        _check_npts(npts_header, idx)\n\n        component_list.append", "        component_list.append")
